@@ -187,12 +187,42 @@ func xlateUndoFlow(repo, out string) {
 		fatal(fmt.Errorf("undoflow: ATSourceManager.BranchRollback not found"))
 	}
 	consts, _ := undoConsts(fset, parseDir(fset, filepath.Join(repo, "pkg", "protocol", "branch")))
+	// remoting/processor/client/rm_branch_rollback_processor.go: what happens to (status, err != nil):
+	// the `if err != nil` block after the BranchRollback call either returns (no response at all) or only
+	// returns for BranchStatusUnknown and otherwise falls through to the response carrying the manager's status
+	repliesOnError := false
+	prFiles := parseDir(fset, filepath.Join(repo, "pkg", "remoting", "processor", "client"))
+	if pf := undoFunc(prFiles, "rmBranchRollbackProcessor", "Process"); pf != nil {
+		for _, st := range pf.Body.List {
+			is, ok := st.(*ast.IfStmt)
+			if !ok || printNode(fset, is.Cond) != "err != nil" || len(is.Body.List) == 0 {
+				continue
+			}
+			if _, ret := is.Body.List[len(is.Body.List)-1].(*ast.ReturnStmt); ret {
+				break // unconditional return: silent
+			}
+			for _, in := range is.Body.List {
+				if iis, ok := in.(*ast.IfStmt); ok && strings.Contains(printNode(fset, iis.Cond), "status == branch.BranchStatusUnknown") {
+					repliesOnError = true
+				}
+			}
+			break
+		}
+	} else {
+		fatal(fmt.Errorf("undoflow: rmBranchRollbackProcessor.Process not found"))
+	}
 	status := func(r *ast.ReturnStmt) string {
 		if len(r.Results) != 2 {
 			return "None"
 		}
 		if printNode(fset, r.Results[1]) != "nil" {
-			return "None" // the error is returned: the processor sends no response
+			// the error is returned next to the status: answered with that status when the processor does so
+			// (never for BranchStatusUnknown = 0), else no response
+			name := lastSel(printNode(fset, r.Results[0]))
+			if v, ok := consts[name]; ok && repliesOnError && v != 0 {
+				return fmt.Sprintf("(Some %d)", v)
+			}
+			return "None"
 		}
 		name := lastSel(printNode(fset, r.Results[0]))
 		if v, ok := consts[name]; ok {
@@ -252,7 +282,8 @@ func xlateUndoFlow(repo, out string) {
 	fmt.Fprintf(&b, "Definition undo_commit_error_returned : bool := %s.\n", undoflowB(commitReturned))
 	fmt.Fprintf(&b, "Definition undo_reverses_log : bool := %s.\n", undoflowB(reverses))
 	fmt.Fprintf(&b, "Definition undo_empty_log_returns_early : bool := %s.\n", undoflowB(emptyEarly))
-	b.WriteString("\n(* at_resource_manager.go BranchRollback: status per result of RunUndo; None = the error is returned (no response) *)\n")
+	b.WriteString("\n(* at_resource_manager.go BranchRollback + rm_branch_rollback_processor.go: status answered per result of RunUndo; None = no response *)\n")
+	fmt.Fprintf(&b, "Definition processor_replies_on_error : bool := %s.\n", undoflowB(repliesOnError))
 	fmt.Fprintf(&b, "Definition status_ok : option N := %s.\n", strings.Trim(stOK, " "))
 	fmt.Fprintf(&b, "Definition status_plain_error : option N := %s.\n", stPlain)
 	fmt.Fprintf(&b, "Definition status_unretriable : option N := %s.\n", stUnretr)
